@@ -498,6 +498,20 @@ func TestC05(t *testing.T) {
 			f := fragAll
 			f.mismatch = 30
 			e = genExpr(t, doc, f)
+		case kind < 81:
+			// hostile strings (invalid UTF-8, NUL, lone surrogate bytes) flowing into every
+			// string-handling function through raw string literals
+			bad := []string{"\xff", "\x80", "a\xffb", "\xc3", "\xe2\x82", "\xf0\x9f", "\xed\xa0\x80", "\x00", "é\xff", "\xff\xfe\xfd", "", "\xc0\xaf"}
+			rs := func() string { return "'" + bad[uni(t, len(bad), "bad")] + "'" }
+			tmpl := []string{"reverse(%s)", "length(%s)", "starts_with(%s, %s)", "ends_with(%s, %s)", "contains(%s, %s)", "join(%s, [%s, %s])", "to_number(%s)", "to_string(%s)",
+				"sort([%s, %s])", "max([%s, %s])", "min([%s])", "sort_by([%s, %s], &@)", "max_by([%s, %s], &reverse(@))", "map(&reverse(@), [%s])", "%s == %s", "[%s][?@ == %s]",
+				"{k: %s}.k | reverse(@)", "not_null(%s) | length(@)", "type(%s)", "to_array(%s)[0] | reverse(@)", "merge({a: %s}, {a: %s}).a", "keys({a: %s})", "%s < %s", "reverse(join('', [%s, 'a']))"}[uni(t, 24, "badT")]
+			for strings.Contains(tmpl, "%s") {
+				tmpl = strings.Replace(tmpl, "%s", rs(), 1)
+			}
+			e = tmpl
+			doc = genDoc(t)
+			statsFor("C05").Class("hostile-string-arg", 1)
 		case kind < 83:
 			e = genDeep(t)
 			doc = genDoc(t)
